@@ -42,6 +42,10 @@ for pid in sorted(PROPS):
         except Exception: ev = {}
     cov = ev.get("coverage", {})
     out.append(f"| {pid} | {', '.join(m.split('.')[-1] for m in c['modules'])} | {cov.get('discharged','?')}/{cov.get('obligations','?')} | {', '.join(c['drivers'])} | {cov.get('evaluations','?')} ({ev.get('tier','?')}) |")
+out.append("\n### What each check claims (level_text / level_note of checks/props/Cxx.py, as in MANIFEST.json)\n")
+for pid in sorted(PROPS):
+    c = PROPS[pid]
+    out.append(f"* **{pid}** — {c.get('level_text','')}\n  *Assumed / not covered:* {c.get('level_note','')}")
 txt = "\n".join(out) + "\n"
 p = os.path.join(V, "DESIGN.md")
 s = open(p).read()
